@@ -80,6 +80,7 @@ func c11Run(c *Ctx) {
 		}
 		o.Surround, o.Use64, o.TopExtra = g.Bool(), g.Bool(), g.Bool()
 		o.Tail = g.Intn(3)
+		o.Brands = c.L("gen:x").Intn(13) // ftyp with up to 12 further compatible brands
 		cr := gen.DrawCR3(g, o)
 		data, top, preview = cr.Bytes, cr.Top, o.Preview
 		// PreviewCR3 walks the layout cameras write: ftyp, moov, xpacket uuid, preview uuid
@@ -155,7 +156,8 @@ func c11Run(c *Ctx) {
 		rec := gen.DrawRecord(g, 200)
 		ly := gen.BuildTIFF(g, rec, gen.LayoutOpts{Foreign: 3})
 		tiff := ly.Encode(big).Bytes
-		h := gen.DrawHEIF(g, tiff, g.Bool())
+		x := c.L("gen:x")
+		h := gen.DrawHEIFOpts(g, tiff, g.Bool(), gen.HEIFOpts{ExtraIloc: x.Intn(3), Brands: x.Intn(13), InfeVariants: x.Intn(4)})
 		data, top = h.Bytes, h.Top
 		bo, first := tiffHdr(tiff)
 		mdatEnd := 0
